@@ -211,10 +211,11 @@ def distinct(db, rep):
     defs = common.defs_of(fn)
     roles = {}
     pa = 0
+    pr = common.powers_roles(db)
     for bi, t in fn.calls():
         r = t['f'].get('resolved') or ''
-        if r.endswith('::powers_array'):
-            roles[f'coefficients#{pa}'] = common.origin_calls(fn, t['args'][1], defs)
+        if r.endswith('::powers_array') and pr and len(t['args']) >= pr['alpha']:
+            roles[f'coefficients#{pa}'] = common.origin_calls(fn, t['args'][pr['alpha'] - 1], defs)
             pa += 1
         if r == VERIFY_OODS:
             roles['oods_point'] = common.origin_calls(fn, t['args'][4], defs)
